@@ -22,6 +22,10 @@ from vlib import log
 LEVEL = "model_checking"
 DRIVER = "agg_driver"
 NUM_FIELDS = ("v", "w", "f")
+# mv: bucket aggregations (range, histogram, composite sources) also on fields where one document has several /
+# repeated values.  There doc_count counts values (recorded finding F14), so those cases are judged by the
+# specification variant that mirrors F14 (AggTrace_f14.cfg); everything else about them is judged normally.
+GENOPT = {"mv": False}
 
 
 # ----------------------------------------------------------------------------- case generation (T)
@@ -71,11 +75,11 @@ def gen_subs(rng, docs, depth, top=False):
 
 
 def gen_composite(rng, docs, depth):
-    # sources on fields without repeated values inside one document (value counting: finding F14)
+    # default: sources on fields without repeated values inside one document (value counting: finding F14)
     fields = ["w", "f", "g"]
-    if all(len(set(d["cat"])) == len(d["cat"]) for d in docs):
+    if GENOPT["mv"] or all(len(set(d["cat"])) == len(d["cat"]) for d in docs):
         fields += ["cat", "cat"]
-    if all(len(set(d["v"])) == len(d["v"]) for d in docs):
+    if GENOPT["mv"] or all(len(set(d["v"])) == len(d["v"]) for d in docs):
         fields.append("v")
     k = rng.choice([1, 2, 2])
     srcs = [[f"k{j}", f, rng.random() < 0.6] for j, f in enumerate(rng.sample(fields, min(k, len(set(fields)))) )]
@@ -85,12 +89,6 @@ def gen_composite(rng, docs, depth):
             seen.add(so[1])
             out.append(so)
     size = rng.choice([1, 2, 3, 5, 10, 50])
-    import itertools
-    combos = set()
-    for d in docs:
-        combos.update(itertools.product(*[d[so[1]] for so in out]))
-    if size >= 10 and len(combos) > size:
-        size = len(combos) + rng.randint(0, 5)      # evictions from a large map: finding F25
     return {"k": "composite", "size": size, "sources": out, "sub": gen_subs(rng, docs, depth)}
 
 
@@ -119,8 +117,6 @@ def gen_terms(rng, docs, depth, top):
         a["ord_default"] = True
     a["ord"] = ord_
     a["sub"] = sub
-    if sub and "missing" in a and any(a["missing"] in d[field] for d in docs):
-        a["missing"] = 99          # a `missing` key that is also a real value + sub-aggregations: finding F24
     nd = distinct_vals(docs, field, a.get("missing"))
     seg = max(a["size"] * 10, a["size"])
     if nd > seg or rng.random() < 0.2:
@@ -132,7 +128,7 @@ def gen_terms(rng, docs, depth, top):
 
 
 def gen_range(rng, docs, depth):
-    field = rng.choice(["w", "f"])
+    field = rng.choice(["w", "f", "v", "v", "v"] if GENOPT["mv"] else ["w", "f"])
     pts = sorted(rng.sample(range(-12, 42), rng.randint(1, 4)))
     rs = []
     if rng.random() < 0.5:
@@ -149,7 +145,7 @@ def gen_range(rng, docs, depth):
 def gen_hist(rng, docs, depth):
     date = rng.random() < 0.25
     unit = 1000 if date else 1
-    a = {"k": "date_histogram" if date else "histogram", "field": "d" if date else rng.choice(["w", "f"])}
+    a = {"k": "date_histogram" if date else "histogram", "field": "d" if date else rng.choice(["w", "f", "v", "v", "v"] if GENOPT["mv"] else ["w", "f"])}
     iv = rng.randint(1, 9)
     a["interval"] = iv * unit
     a["offset"] = rng.randint(0, iv - 1) * unit if rng.random() < 0.5 else 0
@@ -189,8 +185,7 @@ def gen_agg(rng, docs, depth, top=False):
     if x < 0.82:
         return gen_hist(rng, docs, depth)
     if x < 0.91:
-        # composite only as a top-level aggregation (nested: recorded findings F22, F23)
-        return gen_composite(rng, docs, depth) if top else gen_terms(rng, docs, depth, top)
+        return gen_composite(rng, docs, depth)
     return gen_filter(rng, docs, depth)
 
 
@@ -459,7 +454,7 @@ def model_checking(ctx):
     zero = [a for a in r.coverage_zero_actions() if a in ("AddDoc", "Start", "Collect", "MergeTwo")]
     if zero:
         raise vlib.ToolError(f"MC_Agg_base: actions never taken: {zero}")
-    # the value-counting variant of the algebra (mirrors finding F14; judges the F13 sub-run) is sound too
+    # the value-counting variant of the algebra (mirrors finding F14; judges the `mv` run) is sound too
     vlib.mc_check(ctx, "MC_Agg", "MC_Agg_vc.cfg", timeout=300, workers=6)
     if not ctx.quick:
         vlib.mc_check(ctx, "MC_Agg", "MC_Agg_deep.cfg", timeout=600, workers=6)
@@ -483,67 +478,75 @@ def replay_generated(ctx, n):
     return ev, cases
 
 
-def random_cases(ctx, n, seed, label="rand", nmax=12, depth=2):
+def random_cases(ctx, n, seed, label="rand", nmax=12, depth=2, mv=False, seeds=()):
     rng = random.Random(seed)
-    cases = [gen_case(rng, i + 1, nmax=nmax, depth=depth, tag=label) for i in range(n)]
+    GENOPT["mv"] = mv
+    try:
+        cases = list(seeds) + [gen_case(rng, i + 1, nmax=nmax, depth=depth, tag=label) for i in range(n)]
+    finally:
+        GENOPT["mv"] = False
     ev = execute(ctx, cases, label)
     count_obs(ctx, ev)
-    rej = judge(ctx, ev, cases, label)
+    rej = judge(ctx, ev, cases, label, cfg="AggTrace_f14.cfg" if mv else "AggTrace.cfg")
     log(f"[T] {len(cases)} random cases ({label}), {len(rej)} rejected")
     return ev, cases
 
 
-F13_TEXT = ("F13 range aggregation on a multi-valued field with a sub-aggregation: the sub-aggregation receives one (bucket, doc) pair per "
-            "value, i.e. duplicate doc ids; ColumnBlockAccessor::fetch_block assumes none")
 F14_TEXT = "F14 bucket doc_count on a multi-valued field counts values, not documents"
-F24_TEXT = ("F24 terms aggregation whose `missing` key is also a real value of the field hands its sub-aggregations an unsorted doc id list "
-            "(fetch_block_with_missing appends the documents without a value after the others): debug assertion in ColumnBlockAccessor::fetch_block")
-F25_TEXT = ("F25 composite collector memory accounting underflows (`get_memory_consumption() - mem_pre`) when evictions shrink the reported capacity "
-            "of its hash map: panic with overflow checks")
-F22_TEXT = ("F22 composite aggregation as a sub-aggregation panics for a parent bucket that collected no document "
-            "(SegmentCompositeCollector::add_intermediate_aggregation_result lacks prepare_max_bucket)")
-F23_TEXT = ("F23 merge_fruits of an empty composite intermediate result (empty_from_req: target_size 0, under a min_doc_count = 0 terms bucket) "
-            "on the left of a non-empty one drops every composite bucket: the result depends on the merge order")
+TAG_TEXT = {"F14": F14_TEXT}
+
+_DOCS3 = [{"id": [1], "cat": [3], "v": [8], "w": [1], "f": [], "d": [], "g": [1]},
+          {"id": [2], "cat": [1], "v": [-7, -10, 2], "w": [2], "f": [], "d": [], "g": [1]},
+          {"id": [3], "cat": [0], "v": [22, 19, 13], "w": [3], "f": [], "d": [], "g": [1]}]
+_TERMS = {"k": "terms", "field": "cat", "size": 10, "mdc": 1, "segsize": 100, "ord": {"t": "count", "asc": False, "name": "", "prop": ""}, "sub": []}
+_RNG4 = [{"to": 0}, {"from": 0, "to": 7}, {"from": 7, "to": 20}, {"from": 20}]
+_BASE = {"docs": _DOCS3, "parts": [[[0, 1, 2]]], "all": [[0, 1, 2]], "query": "all", "plan": [{"op": "collect", "h": 1, "part": 0}, {"op": "final", "h": 1}]}
+_COMP = {"k": "composite", "size": 10, "sources": [["a", "w", True]], "sub": []}
 
 
-TAG_TEXT = {"F13": F13_TEXT, "F14": F14_TEXT, "F22": F22_TEXT, "F23": F23_TEXT, "F24": F24_TEXT, "F25": F25_TEXT}
+def regression_seeds():
+    """witnesses of repaired defects (fixed: lines of known_findings.json) and of former debug-build-only panics;
+    they run with the default cases and must simply pass.  Returns (seeds for the default run, seeds for the mv run)."""
+    # F22 (fixed 9bbfded07): the range bucket 10-* never collects a document; its nested composite collector panicked at harvest
+    f22 = dict(_BASE, id=900001, tag="seed F22", req=[["r", {"k": "range", "field": "w", "ranges": [{"to": 10}, {"from": 10}], "sub": [["c", _COMP]]}]])
+    # F23 (fixed 616bee76a): term c0 of part 1 only in a document outside the query (min_doc_count = 0 -> zero bucket whose
+    # composite came from empty_from_req: target_size 0); merged on the left of part 2 it trimmed the real buckets away
+    docs23 = [{"id": [1], "cat": [0], "v": [], "w": [5], "f": [], "d": [], "g": [0]},
+              {"id": [2], "cat": [0], "v": [], "w": [3], "f": [], "d": [], "g": [1]}]
+    f23 = {"id": 900002, "tag": "seed F23", "docs": docs23, "parts": [[[0]], [[1]]], "all": [[0], [1]], "query": "g1",
+           "req": [["t", dict(_TERMS, mdc=0, sub=[["c", _COMP]])]],
+           "plan": [{"op": "collect", "h": 1, "part": 0}, {"op": "collect", "h": 2, "part": 1}, {"op": "merge", "a": 1, "b": 2}, {"op": "final", "h": 1}]}
+    # terms whose `missing` key is also a real value: the shared bucket hands its sub-aggregation the doc ids [1, 0]
+    docs24 = [{"id": [1], "cat": [], "v": [], "w": [4], "f": [], "d": [], "g": [1]},
+              {"id": [2], "cat": [], "v": [], "w": [6], "f": [0], "d": [], "g": [1]}]
+    f24 = dict(_BASE, id=900003, tag="seed missing=real value", docs=docs24, parts=[[[0, 1]]], all=[[0, 1]],
+               req=[["t", dict(_TERMS, field="f", missing=0, sub=[["s", {"k": "sum", "field": "w"}]])]])
+    # composite with evictions from a large per-segment map (memory accounting went negative): 100 keys, page size 50
+    r25 = random.Random(2)
+    for n25 in [60] * 6 + [100] * 3:
+        ws = list(range(n25))
+        r25.shuffle(ws)
+    docs25 = [{"id": [i + 1], "cat": [], "v": [], "w": [ws[i]], "f": [], "d": [], "g": [1]} for i in range(100)]
+    f25 = dict(_BASE, id=900004, tag="seed composite evictions", docs=docs25, parts=[[list(range(50)), list(range(50, 100))]], all=[list(range(100))],
+               req=[["c", dict(_COMP, size=50)]])
+    # F13 (fixed 5d2d834f6): bucket 7-20 receives the doc ids [0, 2, 2]; fetch_block read them as the run 0..2 and
+    # attributed c1 to the bucket.  Judged by the value-counting variant (doc_count itself is finding F14).
+    sub = [["t", _TERMS]]
+    f13 = [dict(_BASE, id=900005, tag="seed F13", req=[["r", {"k": "range", "field": "v", "ranges": _RNG4, "sub": sub}]]),
+           dict(_BASE, id=900006, tag="seed F13", req=[["h", {"k": "histogram", "field": "v", "interval": 10, "offset": 0, "mdc": 1, "sub": sub}]])]
+    return [f22, f23, f24, f25], f13
 
 
 def known_finding_runs(ctx):
-    """dedicated reproductions of the recorded defects (the default generators steer around them:
-    range / histogram only on single-valued fields)"""
-    docs = [{"id": [1], "cat": [3], "v": [8], "w": [1], "f": [], "d": [], "g": [1]},
-            {"id": [2], "cat": [1], "v": [-7, -10, 2], "w": [2], "f": [], "d": [], "g": [1]},
-            {"id": [3], "cat": [0], "v": [22, 19, 13], "w": [3], "f": [], "d": [], "g": [1]}]
-    docs_dup = [dict(docs[0]), dict(docs[1], cat=[1, 1]), dict(docs[2])]
-    terms = {"k": "terms", "field": "cat", "size": 10, "mdc": 1, "segsize": 100, "ord": {"t": "count", "asc": False, "name": "", "prop": ""}, "sub": []}
-    rng4 = [{"to": 0}, {"from": 0, "to": 7}, {"from": 7, "to": 20}, {"from": 20}]
-    base = {"docs": docs, "parts": [[[0, 1, 2]]], "all": [[0, 1, 2]], "query": "all", "plan": [{"op": "collect", "h": 1, "part": 0}, {"op": "final", "h": 1}]}
-    f13 = [dict(base, id=1, tag="F13", req=[["r", {"k": "range", "field": "v", "ranges": rng4, "sub": [["t", terms]]}]]),
-           dict(base, id=2, tag="F13", req=[["h", {"k": "histogram", "field": "v", "interval": 10, "offset": 0, "mdc": 1, "sub": [["t", terms]]}]])]
-    f14 = [dict(base, id=3, tag="F14", req=[["r", {"k": "range", "field": "v", "ranges": rng4, "sub": []}]]),
-           dict(base, id=4, tag="F14", req=[["h", {"k": "histogram", "field": "v", "interval": 10, "offset": 0, "mdc": 1, "sub": []}]]),
+    """dedicated reproduction of the recorded finding F14 (the default generators steer around it: range /
+    histogram / composite sources only on fields without repeated values per document; the `mv` run explores
+    that class under the specification variant that mirrors it)"""
+    docs_dup = [dict(_DOCS3[0]), dict(_DOCS3[1], cat=[1, 1]), dict(_DOCS3[2])]
+    f14 = [dict(_BASE, id=3, tag="F14", req=[["r", {"k": "range", "field": "v", "ranges": _RNG4, "sub": []}]]),
+           dict(_BASE, id=4, tag="F14", req=[["h", {"k": "histogram", "field": "v", "interval": 10, "offset": 0, "mdc": 1, "sub": []}]]),
            # a document holding the same term twice is counted twice by a composite terms source
-           dict(base, id=5, tag="F14", docs=docs_dup, req=[["c", {"k": "composite", "size": 10, "sources": [["a", "cat", True]], "sub": []}]])]
-    comp = {"k": "composite", "size": 10, "sources": [["a", "w", True]], "sub": []}
-    # F22: the range bucket 10-* never collects a document -> the nested composite collector panics at harvest
-    f19 = [dict(base, id=6, tag="F22", req=[["r", {"k": "range", "field": "w", "ranges": [{"to": 10}, {"from": 10}], "sub": [["c", comp]]}]])]
-    # F23: part 1 holds term c0 only in a document outside the query (min_doc_count = 0 -> a zero bucket whose
-    # composite is empty_from_req: target_size 0); merged on the left of part 2 it trims the real buckets away
-    docs20 = [{"id": [1], "cat": [0], "v": [], "w": [5], "f": [], "d": [], "g": [0]},
-              {"id": [2], "cat": [0], "v": [], "w": [3], "f": [], "d": [], "g": [1]}]
-    t0 = dict(terms, mdc=0, sub=[["c", comp]])
-    f20 = [{"id": 7, "tag": "F23", "docs": docs20, "parts": [[[0]], [[1]]], "all": [[0], [1]], "query": "g1", "req": [["t", t0]],
-            "plan": [{"op": "collect", "h": 1, "part": 0}, {"op": "collect", "h": 2, "part": 1}, {"op": "merge", "a": 1, "b": 2}, {"op": "final", "h": 1}]}]
+           dict(_BASE, id=5, tag="F14", docs=docs_dup, req=[["c", {"k": "composite", "size": 10, "sources": [["a", "cat", True]], "sub": []}]])]
     repro = ctx.cov.setdefault("known_finding_reproductions", {})
-    # F13 is judged by the specification variant that mirrors F14 (ValueCounts = TRUE: one count per value),
-    # so it reports exactly what is wrong beyond the value counting: the panic / the mis-attributed values
-    ev = execute(ctx, f13, "kf13")
-
-    def describe13(case, e, why):
-        return f"{F13_TEXT} [{case['req'][0][1]['k']} on field v]: {why}"
-    rej = judge(ctx, ev, f13, "kf13", describe=describe13, cfg="AggTrace_f14.cfg")
-    repro["F13"] = f"{len(rej)} of {len(f13)} cases rejected (judged with ValueCounts = TRUE)"
     # F14: rejected by the specification, accepted by the variant that counts values
     ev = execute(ctx, f14, "kf14")
 
@@ -554,29 +557,8 @@ def known_finding_runs(ctx):
     repro["F14"] = f"{len(rej)} of {len(f14)} cases rejected; {len(f14) - len(rej_v)} of {len(f14)} accepted by the value-counting variant of the specification"
     if rej_v:
         ctx.violation("the F14 cases are not explained by value counting either: " + rej_v[0][1], [], json.dumps(rej_v[0][3])[:3000])
-    # F24: document 1 has no f, document 2 has f = 0 = the `missing` key -> bucket 0 collects docs [1, 0]
-    docs24 = [{"id": [1], "cat": [], "v": [], "w": [4], "f": [], "d": [], "g": [1]},
-              {"id": [2], "cat": [], "v": [], "w": [6], "f": [0], "d": [], "g": [1]}]
-    f24 = [dict(base, id=8, tag="F24", docs=docs24, parts=[[[0, 1]]], all=[[0, 1]],
-                req=[["t", dict(terms, field="f", missing=0, sub=[["s", {"k": "sum", "field": "w"}]])]])]
-    # F25: 100 distinct keys in a fixed pseudo-random order, page size 50
-    r25 = random.Random(2)
-    for n25 in [60] * 6 + [100] * 3:          # the 9th shuffle of this generator is a witness
-        ws = list(range(n25))
-        r25.shuffle(ws)
-    docs25 = [{"id": [i + 1], "cat": [], "v": [], "w": [ws[i]], "f": [], "d": [], "g": [1]} for i in range(100)]
-    f25 = [dict(base, id=9, tag="F25", docs=docs25, parts=[[list(range(100))]], all=[list(range(100))],
-                req=[["c", dict(comp, size=50)]])]
-    for label, fid, cases, text in (("kf22", "F22", f19, F22_TEXT), ("kf23", "F23", f20, F23_TEXT), ("kf24", "F24", f24, F24_TEXT), ("kf25", "F25", f25, F25_TEXT)):
-        ev = execute(ctx, cases, label)
-
-        def describe(case, e, why, text=text):
-            return f"{text}: {why}"
-        rej = judge(ctx, ev, cases, label, describe=describe)
-        repro[fid] = f"{len(rej)} of {len(cases)} cases rejected"
-    for fid, v in repro.items():
-        if v.startswith("0 of"):
-            log(f"[kf] {fid}: the recorded finding did not reproduce")
+    if not rej:
+        log("[kf] F14: the recorded finding did not reproduce")
 
 
 def binding_selftest(ctx, events, cases):
@@ -649,18 +631,23 @@ def run(ctx):
         "percentiles: within 2 % (+0.02) of the value of rank floor(p/100*(n-1)) (DDSketch, relative accuracy 1 %); cardinality: exact (<= 40 distinct values, "
         "far below the sketch's error); top_hits: sort on u64 fields every document has (id, g), ties unordered, docvalue_fields compared as bags; "
         "composite: terms sources, no `after` key; key_as_string of date buckets, keyed=true output, calendar intervals and fractional intervals are not covered",
-        "default generators steer around the recorded findings: range / histogram / composite sources only on fields without repeated values per document "
-        "(F13, F14), composite only as a top-level aggregation (F22, F23), without evictions from a large per-segment map (F25); a terms `missing` key that is also a real value only without sub-aggregations (F24); min_doc_count = 0 only for top-level terms on the text field",
+        "default generators steer around the recorded finding F14 only: range / histogram / composite sources on fields without repeated values per "
+        "document; the `mv` run explores exactly that class (with sub-aggregations) under the specification variant that mirrors F14 "
+        "(ValueCounts = TRUE: doc_count = number of values). min_doc_count = 0 only for top-level terms on the text field. Witnesses of the repaired "
+        "defects F13, F22, F23 and of two former debug-build-only panics run as regression seeds with the default cases",
         "not judged (unspecified by the documentation, treated as unordered): order among buckets whose order key is equal or absent (min, max, avg over no value); a range aggregation over no document at all (empty parent bucket) may list all its ranges with doc_count 0 or none",
     ]
     model_checking(ctx)
     ev_g, cases_g = replay_generated(ctx, 120 if ctx.quick else 1500)
-    ev_r, cases_r = random_cases(ctx, 900 if ctx.quick else 6000, ctx.seed)
+    seeds, seeds_mv = regression_seeds()
+    ev_r, cases_r = random_cases(ctx, 750 if ctx.quick else 5000, ctx.seed, seeds=seeds)
+    # bucket aggregations on multi-valued fields (with sub-aggregations), judged by the variant that mirrors F14
+    random_cases(ctx, 220 if ctx.quick else 2500, ctx.seed + 5000, label="mv", mv=True, seeds=seeds_mv)
     random_cases(ctx, 20 if ctx.quick else 150, ctx.seed + 7000, label="big", nmax=150, depth=2)
-    random_cases(ctx, 150 if ctx.quick else 2500, ctx.seed + 9000, label="deep", nmax=9, depth=3)
+    random_cases(ctx, 130 if ctx.quick else 2500, ctx.seed + 9000, label="deep", nmax=9, depth=3)
     known_finding_runs(ctx)
     binding_selftest(ctx, ev_r, cases_r)
-    c = cases_r[0]
+    c = cases_r[len(seeds)]
     ctx.sample({"kind": "random case executed on the real collectors", "docs": c["docs"], "parts": c["parts"], "all_index_segments": c["all"],
                 "query": c["query"], "request": c["req"], "plan": c["plan"]})
     obs = [e for e in ev_r if e.get("ev") == "obs" and e.get("id") == c["id"]]
@@ -674,5 +661,5 @@ def replay(ctx, path):
     for f in files:
         ev = vlib.read_ndjson(f)
         cases = [{"id": e.get("id"), "docs": e["docs"], "parts": [], "query": e["query"], "req": e["req"], "plan": []} for e in ev if e.get("ev") == "case"]
-        f13 = any(e.get("tag") == "F13" for e in ev if e.get("ev") == "case")
-        judge(ctx, ev, cases, "replay", cfg="AggTrace_f14.cfg" if f13 else "AggTrace.cfg")
+        mv = any(str(e.get("tag")) in ("mv", "seed F13") for e in ev if e.get("ev") == "case")
+        judge(ctx, ev, cases, "replay", cfg="AggTrace_f14.cfg" if mv else "AggTrace.cfg")
